@@ -1,12 +1,207 @@
-import LLTD.Model.Event
-import LLTD.Spec.Table
-import LLTD.Spec.Event
+/-
+  C12 — Periodic Hellos are paced, purposeful and stop with the session.
+-/
+import LLTD.Props.C16
 import LLTD.Spec.Tick
-import LLTD.Lemmas.Table
+import LLTD.Lemmas.Lookup
 
 namespace LLTD.C12
 open LLTD LLTD.Spec
 
-theorem table_size : X.maxEntries = 16 := by decide
+theorem foldl_from_ge (tbl : TransTable) (cur : Nat) (i : Int) (n : Nat) (hc : n ≤ cur) (h : ∀ r ∈ tbl, r.1 < n) :
+    lookup tbl cur i = (cur, false) := by
+  unfold lookup
+  apply foldl_nomatch
+  intro r hr hcond
+  have := h r hr
+  omega
+
+/-- the table-driven update leaves the enumeration in Pausing only if the session table is neither empty nor
+    all complete — for every automaton state (also out-of-range ones) -/
+theorem update_pausing (e : Fsm) (b : Band) (te ac : Bool) (nowS : Nat)
+    (h : (enumUpdate e b te ac nowS).1.state = 1) : te = false ∧ ac = false := by
+  unfold enumUpdate at h
+  by_cases h0 : e.state ≠ 0
+  · rw [if_pos h0] at h
+    cases te with
+    | true => simp at h
+    | false =>
+      simp only [Bool.false_eq_true, if_false] at h
+      cases ac with
+      | false => exact ⟨rfl, rfl⟩
+      | true =>
+        simp only [if_true, stepEnumeration, stepPlain] at h
+        exfalso
+        by_cases hs : e.state < 3
+        · have key : ∀ s' < 3, (lookup X.enumerationTable s' (X.enumSessComplete : Nat)).1 ≠ 1 := by decide
+          exact key _ hs h
+        · have hr : ∀ r ∈ X.enumerationTable, r.1 < 3 := by decide
+          rw [foldl_from_ge X.enumerationTable e.state _ 3 (by omega) hr] at h
+          simp only [] at h; omega
+  · rw [if_neg h0] at h
+    simp only [] at h
+    omega
+
+/-- the Hello-timeout branch with the Darwin wiring: no Hello and the time stamp untouched, or exactly one Hello
+    at `now` > 0, at least one second after the previous one, and the time stamp becomes `now` -/
+theorem hello_branch (e : Fsm) (b : Band) (lastTx now : Nat) (hn : now < u64) (hl : lastTx ≤ now) :
+    ((enumHello e b lastTx .wired now).2.2.2 = [] ∧ (enumHello e b lastTx .wired now).2.2.1 = lastTx) ∨
+    ((enumHello e b lastTx .wired now).2.2.2 = [now] ∧ (enumHello e b lastTx .wired now).2.2.1 = now ∧ 0 < now ∧
+      (lastTx = 0 ∨ lastTx + 1000 ≤ now)) := by
+  unfold enumHello
+  by_cases hd : b.helloTs > 0 ∧ now ≥ b.helloTs
+  · simp only [hd, and_self, if_true]
+    by_cases hs : lastTx > 0 ∧ diff64 now lastTx < X.helloMinIntervalMs
+    · simp only [hs, and_self, if_true]; left; first | exact ⟨rfl, rfl⟩ | trivial | simp
+    · simp only [hs, if_false]
+      right
+      refine ⟨by first | rfl | trivial, by first | rfl | trivial, by omega, ?_⟩
+      by_cases hz : lastTx = 0
+      · exact Or.inl hz
+      · right
+        have hdiff : ¬ diff64 now lastTx < X.helloMinIntervalMs := fun hlt => hs ⟨by omega, hlt⟩
+        rw [diff64_of_le now lastTx hl hn, X.helloMinIntervalMs_val] at hdiff
+        omega
+  · simp only [hd, if_false]; left; first | exact ⟨rfl, rfl⟩ | trivial | simp
+
+/-- one tick, Darwin wiring: no Hello (time stamp untouched), or exactly one Hello at `now`, and then the session
+    table it saw (after the inactivity clear and the expiry sweep) was neither empty nor all complete -/
+theorem tick_hello (s : TickState) (now : Nat) (hn : now < u64) (hl : s.lastTx ≤ now) :
+    ((tick s .wired now).2 = [] ∧ (tick s .wired now).1.lastTx = s.lastTx) ∨
+    ((tick s .wired now).2 = [now] ∧ (tick s .wired now).1.lastTx = now ∧ 0 < now ∧
+      (s.lastTx = 0 ∨ s.lastTx + 1000 ≤ now) ∧
+      tableEmptyOf (tick s .wired now).1.table = false ∧ allCompleteOf (tick s .wired now).1.table = false) := by
+  unfold tick
+  simp only []
+  generalize ((tickMapStage s.mapping s.table (now / 1000)).2.map fun t => t.expire (now / 1000)) = tb
+  unfold tickEnumStage
+  match hen : s.enum with
+  | none => left; exact ⟨rfl, rfl⟩
+  | some (e, none) => left; exact ⟨rfl, rfl⟩
+  | some (e, some b) =>
+    simp only []
+    by_cases hp : (enumUpdate e b (tableEmptyOf tb) (allCompleteOf tb) (now / 1000)).1.state = 1
+    · simp only [hp, if_true]
+      have hu := update_pausing e b _ _ _ hp
+      rcases hello_branch (enumUpdate e b (tableEmptyOf tb) (allCompleteOf tb) (now / 1000)).1
+          (enumUpdate e b (tableEmptyOf tb) (allCompleteOf tb) (now / 1000)).2 s.lastTx now hn hl with h | h
+      · left; exact h
+      · right; exact ⟨h.1, h.2.1, h.2.2.1, h.2.2.2, hu.1, hu.2⟩
+    · simp only [hp, if_false]; left; first | exact ⟨rfl, rfl⟩ | trivial | simp
+
+/-- purposeful: a periodic Hello is sent only while the session table holds a live session that is not complete
+    (given the table invariant of C16, which every operation sequence maintains) -/
+theorem gate (t : Table) (hi : C16.TInv t) (he : t.isEmpty = false) (ha : t.allComplete = false) :
+    ∃ s ∈ (viewOf t).live, s.complete = false := by
+  rw [C16.view_live]
+  have hall : (liveS t.entries).all (·.complete) = false := by rw [← hi.allc]; exact ha
+  have : ¬ ∀ s ∈ liveS t.entries, s.complete = true := by
+    intro hh
+    have : (liveS t.entries).all (·.complete) = true := List.all_eq_true.mpr hh
+    rw [hall] at this; exact Bool.noConfusion this
+  apply Classical.byContradiction
+  intro hcon
+  apply this
+  intro s hs
+  cases hsc : s.complete with
+  | true => rfl
+  | false => exact absurd ⟨s, hs, hsc⟩ hcon
+
+/-- silent once idle: with an empty session table (reset, expired, or dropped after 30 s without traffic) no tick sends -/
+theorem idle_silent (s : TickState) (now : Nat) (hn : now < u64) (hl : s.lastTx ≤ now)
+    (hidle : tableEmptyOf (tick s .wired now).1.table = true) : (tick s .wired now).2 = [] := by
+  rcases tick_hello s now hn hl with h | h
+  · exact h.1
+  · rw [hidle] at h; exact absurd h.2.2.2.2.1 (by simp)
+
+/-! ## Pacing over every schedule
+
+  A schedule is any sequence of: a tick at the current time, a clock advance, or ANY other operation on the
+  automata / table / RepeatBand state that leaves the last-transmit time stamp alone (the Darwin wiring: only
+  automata_tick writes it).  This covers every glue flow built from the public calls and direct field writes. -/
+
+inductive Op where
+  | tick
+  | advance (ms : Nat)
+  | other (f : TickState → TickState) (keeps : ∀ s, (f s).lastTx = s.lastTx)
+
+/-- (state, clock) → (state, clock, Hellos sent by this op) -/
+def stepOp (s : TickState) (now : Nat) : Op → TickState × Nat × List Nat
+  | .tick => ((tick s .wired now).1, now, (tick s .wired now).2)
+  | .advance ms => (s, now + ms, [])
+  | .other f _ => (f s, now, [])
+
+def runOps (s : TickState) (now : Nat) : List Op → List Nat
+  | [] => []
+  | op :: rest => (stepOp s now op).2.2 ++ runOps (stepOp s now op).1 (stepOp s now op).2.1 rest
+
+def clockBound (now : Nat) : List Op → Nat
+  | [] => now
+  | .advance ms :: rest => clockBound (now + ms) rest
+  | _ :: rest => clockBound now rest
+
+/-- only the tick sends -/
+theorem only_tick (s : TickState) (now : Nat) (op : Op) (h : ∀ (hp : op = .tick), False) : (stepOp s now op).2.2 = [] := by
+  cases op with
+  | tick => exact absurd rfl (fun hp => h hp)
+  | advance ms => rfl
+  | other f k => rfl
+
+theorem paced_of (last : Option Nat) (now : Nat) (ops : List Op) (s : TickState)
+    (hlast : s.lastTx = last.getD 0) (hle : s.lastTx ≤ now) (hpos : ∀ l, last = some l → 0 < l)
+    (hb : clockBound now ops < u64) : paced last (runOps s now ops) = true := by
+  induction ops generalizing s now last with
+  | nil => cases last <;> rfl
+  | cons op rest ih =>
+    have hnow : now < u64 := by
+      have : ∀ (n : Nat) (l : List Op), n ≤ clockBound n l := by
+        intro n l
+        induction l generalizing n with
+        | nil => exact Nat.le_refl _
+        | cons o r ihr =>
+          cases o with
+          | tick => exact ihr n
+          | advance ms => exact Nat.le_trans (Nat.le_add_right n ms) (ihr (n + ms))
+          | other f k => exact ihr n
+      exact Nat.lt_of_le_of_lt (this now (op :: rest)) hb
+    cases op with
+    | advance ms =>
+      simp only [runOps, stepOp, List.nil_append]
+      exact ih last (now + ms) s hlast (by omega) hpos hb
+    | other f k =>
+      simp only [runOps, stepOp, List.nil_append]
+      exact ih last now (f s) (by rw [k]; exact hlast) (by rw [k]; exact hle) hpos hb
+    | tick =>
+      simp only [runOps, stepOp]
+      rcases tick_hello s now hnow hle with h | h
+      · rw [h.1, List.nil_append]
+        exact ih last now _ (by rw [h.2]; exact hlast) (by rw [h.2]; exact hle) hpos hb
+      · rw [h.1]
+        have hrest := ih (some now) now (tick s .wired now).1 (by rw [h.2.1]; rfl) (by rw [h.2.1]; exact Nat.le_refl _)
+          (by intro l hl; cases hl; exact h.2.2.1) hb
+        cases last with
+        | none => simp only [List.singleton_append, paced]; exact hrest
+        | some l =>
+          simp only [List.singleton_append, paced, Bool.and_eq_true, decide_eq_true_eq]
+          refine ⟨?_, hrest⟩
+          have hl0 := hpos l rfl
+          simp only [Option.getD] at hlast
+          rcases h.2.2.2.1 with hz | hge
+          · omega
+          · omega
+
+/-- PACING: however ticks, clock advances and any other operations interleave, two periodic Hellos on one
+    interface are never less than one second apart -/
+theorem pace (ops : List Op) (s : TickState) (now : Nat) (h0 : s.lastTx = 0) (hb : clockBound now ops < u64) :
+    paced none (runOps s now ops) = true :=
+  paced_of none now ops s (by rw [h0]; rfl) (by rw [h0]; exact Nat.zero_le _) (by intro l hl; cases hl) hb
+
+/-- non-vacuity: a session that is not complete, Pausing, deadline passed: the tick sends, and one tick later it does not -/
+example :
+    let t := (Table.create.add [2,0,0,0,0,1] 1 1 0).1
+    let s : TickState := { mapping := none, enum := some (⟨1, 0⟩, some { ni := 45, r := 0, begun := false, helloTs := 120, blockTs := 300 }),
+                           table := some t, lastTx := 0 }
+    (tick s .wired 5000).2 = [5000] ∧ (tick (tick s .wired 5000).1 .wired 5100).2 = [] := by
+  decide
 
 end LLTD.C12
